@@ -111,6 +111,13 @@ func (g *mutableGen) genOneof(field *protogen.Field) {
 	g.P("switch m := x.", field.Oneof.GoName, ".(type) {")
 	// we check if the type matches the oneof type of the field
 	g.P("case *", g.QualifiedGoIdent(field.GoIdent), ":")
+	// a typed-nil wrapper or a wrapper without payload holds no message to hand out: allocate one
+	g.P("if m == nil || m.", field.GoName, " == nil {")
+	g.P("value := &", g.QualifiedGoIdent(field.Message.GoIdent), "{}")
+	g.P("oneofValue := &", g.QualifiedGoIdent(field.GoIdent), "{", field.GoName, ": value}")
+	g.P("x.", field.Oneof.GoName, " = oneofValue")
+	g.P("return ", protoreflectPkg.Ident("ValueOfMessage"), "(value.ProtoReflect())")
+	g.P("}")
 	// if it does we return it
 	g.P("return ", protoreflectPkg.Ident("ValueOfMessage"), "(m.", field.GoName, ".ProtoReflect())")
 	// otherwise we reset the field with the new instance
